@@ -130,10 +130,41 @@ def groupOk (g : Group) : Bool :=
 
 def elemOf (es : List Elem) (g : Group) : Bool := es.any (fun e => decide (e.z = g.z) && decide (e.sym = g.sym))
 
+/-- a coded symbol stands for one or two capital letters -/
+def symValid (sym : Nat) : Bool := decide (1 ≤ sym / 27) && decide (sym / 27 ≤ 26) && decide (sym % 27 ≤ 26)
+
+/-- pairwise distinct (quadratic; used on the 118 atomic numbers only) -/
+def allDistinct : List Nat → Bool
+  | [] => true
+  | x :: xs => !(xs.contains x) && allDistinct xs
+
 /-- the whole nuclide table check; `es` is elements.dat sorted by symbol code -/
 def checkTable (es : List Elem) (gs : List Group) : Bool :=
   sortedFrom 0 (es.map (·.sym)) && sortedFrom 0 (gs.map (·.z)) && gs.all groupOk && gs.all abundOk
     && gs.all (elemOf es)
+
+/-- elements.dat: symbols are one or two capital letters, pairwise distinct (sorted), atomic numbers pairwise distinct -/
+def checkElements (es : List Elem) : Bool :=
+  es.all (fun e => symValid e.sym) && sortedFrom 0 (es.map (·.sym)) && allDistinct (es.map (·.z))
+
+/-- `Element.getNaturalIsotopics`: nuclides with abundance > 0 and a > 0 — ground states AND isomers (Ta-180m) -/
+def naturalIsotopics (g : Group) : List Iso := g.isos.filter (fun i => decide (0 < i.abund) && decide (0 < i.a))
+
+/-- the regenerated `naturals` table (what the loaded implementation reports per element, as (z, [a·10+s]))
+against the transcription evaluated on the data -/
+def naturalsMatch : List Group → List (Nat × List Nat) → Bool
+  | [], [] => true
+  | g :: gs, n :: ns => decide (g.z = n.1) && decide ((naturalIsotopics g).map isoKey = n.2) && naturalsMatch gs ns
+  | _, _ => false
+
+def naturalSumOk (g : Group) : Bool :=
+  let n := naturalIsotopics g
+  n.isEmpty ||
+    (decide (abundScale ≤ (n.map (·.abund)).sum + abundTol n.length) &&
+     decide ((n.map (·.abund)).sum ≤ abundScale + abundTol n.length))
+
+def checkNaturals (gs : List Group) (ns : List (Nat × List Nat)) : Bool :=
+  naturalsMatch gs ns && gs.all naturalSumOk
 
 /-! ### burn chain and MC² ids -/
 
@@ -163,41 +194,52 @@ def checkMccColumn (col : List (Nat × Nat)) : Bool := sortedFrom 0 (col.map (·
 def checkMccNames (gs : List Group) (mccKeys : List Nat) : Bool :=
   subsetSorted mccKeys ((allRows gs).map Row.key)
 
-/-! ### string rendering (driver only) -/
+/-! ### string rendering: the identifiers as the character sequences Python produces -/
 
-def letter (c : Nat) : String := if c = 0 then "" else String.singleton (Char.ofNat (64 + c))
-def symStr (sym : Nat) : String := letter (sym / 27) ++ letter (sym % 27)
+/-- `str(n)` / `"{:d}".format(n)` -/
+def digits (n : Nat) : List Char := Nat.toDigits 10 n
 
-def suffixStr (k : Nat) : String :=
+/-- `"{:03d}".format(n)` -/
+def pad3 (n : Nat) : List Char :=
+  if n < 1000 then [Nat.digitChar (n / 100), Nat.digitChar (n / 10 % 10), Nat.digitChar (n % 10)]
+  else digits n
+
+def letter (c : Nat) : List Char := if c = 0 then [] else [Char.ofNat (64 + c)]
+def symChars (sym : Nat) : List Char := letter (sym / 27) ++ letter (sym % 27)
+
+def suffixChars (k : Nat) : List Char :=
   match k with
-  | 0 => "" | 1 => "M" | 2 => "M2" | 3 => "M3" | 4 => "G" | _ => "?"
+  | 0 => [] | 1 => ['M'] | 2 => ['M', '2'] | 3 => ['M', '3'] | 4 => ['G'] | _ => ['?']
 
-def nameStr (r : Row) : String :=
-  let id := nameId r
-  symStr id.1 ++ toString id.2.1 ++ suffixStr id.2.2
+/-- `"{}{}{}".format(element.symbol, a, metaChar[state])` (AM242 ground state: "AM242G") -/
+def nameChars (r : Row) : List Char :=
+  symChars (nameId r).1 ++ digits (nameId r).2.1 ++ suffixChars (nameId r).2.2
 
-def labelChars : List Char := "0123456789ABCDEFGHIJKLMNOPQRSTUVWXYZabcd".toList
+def labelAlphabet : List Char := "0123456789ABCDEFGHIJKLMNOPQRSTUVWXYZabcd".toList
 
-/-- none = IndexError in `_createLabel` -/
-def labelStr (r : Row) : Option String :=
-  let id := labelId r
-  match labelChars[id.2.2]? with
+/-- `"{}{}{}".format(element.symbol, firstTwoDigits, lastDigit)`; none = IndexError in `_createLabel` -/
+def labelCharsOf (r : Row) : Option (List Char) :=
+  match labelAlphabet[(labelId r).2.2]? with
   | none => none
-  | some c => some (symStr id.1 ++ toString id.2.1 ++ String.singleton c)
+  | some c => some (symChars (labelId r).1 ++ digits (labelId r).2.1 ++ [c])
 
-def pad3 (n : Nat) : String :=
-  let s := toString n
-  if s.length ≥ 3 then s else String.ofList (List.replicate (3 - s.length) '0') ++ s
+/-- `"{z:d}{a:03d}"` -/
+def mcnpChars (r : Row) : List Char := digits r.z ++ pad3 (mcnpA r.z r.a r.s)
+/-- `f"{a}{z:>03d}{state}"` -/
+def aaazzzsChars (r : Row) : List Char := digits r.a ++ pad3 r.z ++ digits r.s
 
-def mcnpStr (r : Row) : String := toString r.z ++ pad3 (mcnpA r.z r.a r.s)
-def aaazzzsStr (r : Row) : String := toString r.a ++ pad3 r.z ++ toString r.s
+/-- `"n" + name.capitalize()` -/
+def dbNameChars (r : Row) : List Char :=
+  match nameChars r with
+  | [] => ['n']
+  | c :: cs => 'n' :: c.toUpper :: cs.map Char.toLower
 
-/-- "n" + name.capitalize() -/
-def dbNameStr (r : Row) : String :=
-  let nm := nameStr r
-  match nm.toList with
-  | [] => "n"
-  | c :: cs => "n" ++ String.ofList (c.toUpper :: cs.map Char.toLower)
+def symStr (sym : Nat) : String := String.ofList (symChars sym)
+def nameStr (r : Row) : String := String.ofList (nameChars r)
+def labelStr (r : Row) : Option String := (labelCharsOf r).map String.ofList
+def mcnpStr (r : Row) : String := String.ofList (mcnpChars r)
+def aaazzzsStr (r : Row) : String := String.ofList (aaazzzsChars r)
+def dbNameStr (r : Row) : String := String.ofList (dbNameChars r)
 
 def parseSym (s : String) : Option Nat :=
   match s.toList with
